@@ -1,7 +1,7 @@
 (* Props/C06_rtubin.v — C06, RTU / binary half: chunking independence.  ONLY statements. *)
 From PM.theories Require Import Base Expr Struct FrBCode Crc FrBCommon FrRtu FrBin FrSpecB.
 From PM.Generated Require Import GenFramerB.
-From PM.proofs Require Import Crc_proofs FrB_witness_proofs.
+From PM.proofs Require Import Crc_proofs FrB_witness_proofs FrB_rtu_proofs.
 Open Scope list_scope.
 Open Scope N_scope.
 
@@ -13,6 +13,41 @@ Definition C06_full_statement_rtu : Prop :=
     concat chunks = concat (map (fun f => spec_adu_rtu (fst f) (snd f)) frames) ->
     let cfg := {| cf_dec := dec; cf_rules := server_decoder; cf_units := []; cf_single := true |} in
     deliveries (rtu_feed cfg rtu_init chunks) = map (fun f => (snd f, Z.of_N (fst f))) frames.
+
+(* RTU, strongest true statement: for EVERY list of chunks (empty ones included) that cuts a
+   stream of valid frames so that at most one frame completes per read ([opr]), every frame is
+   delivered, in order, by the read that completes it, and no call raises.  [b] = bytes already
+   buffered; the header may be {} , the initial dict or one already populated for the frame. *)
+Theorem C06_rtu_partial : forall cfg chunks b frames st,
+  r_buf st = b ->
+  match frames with [] => True | (u, pdu) :: _ => hdr_waiting (spec_adu_rtu u pdu) (r_hdr st) end ->
+  Forall (fun f => valid_frame cfg (fst f) (snd f)) frames ->
+  opr b frames chunks ->
+  rtu_feed_dels cfg st chunks = (map (fun f => (snd f, Z.of_N (fst f))) frames, map (fun _ => FOk) chunks).
+Proof. exact rtu_chunked. Qed.
+Print Assumptions C06_rtu_partial.
+
+(* the two single-call facts it rests on: a strict prefix of a valid frame is kept, silently *)
+Theorem C06_rtu_incomplete_kept : forall cfg st chunk u pdu b q,
+  valid_frame cfg u pdu -> hdr_waiting (spec_adu_rtu u pdu) (r_hdr st) ->
+  r_buf st ++ chunk = b -> spec_adu_rtu u pdu = b ++ q -> q <> [] ->
+  exists h', rtu_recv cfg st chunk = ({| r_buf := b; r_hdr := h' |}, [], FOk) /\
+             hdr_waiting (spec_adu_rtu u pdu) h'.
+Proof. exact rtu_recv_incomplete. Qed.
+Print Assumptions C06_rtu_incomplete_kept.
+
+(* ... and a completed frame is delivered, what follows it stays buffered *)
+Theorem C06_rtu_complete_delivered : forall cfg st chunk u pdu q,
+  valid_frame cfg u pdu -> hdr_waiting (spec_adu_rtu u pdu) (r_hdr st) ->
+  r_buf st ++ chunk = spec_adu_rtu u pdu ++ q -> wfb q = true ->
+  rtu_recv cfg st chunk = ({| r_buf := q; r_hdr := hdr_empty |}, [(pdu, Z.of_N u)], FOk).
+Proof. exact rtu_recv_complete. Qed.
+Print Assumptions C06_rtu_complete_delivered.
+
+Example C06_nonvacuous :
+  let fa := spec_adu_rtu 1 [3; 0; 1; 0; 2] in
+  opr [] [(1, [3; 0; 1; 0; 2]); (1, [3; 0; 1; 0; 2])] [firstn 3 fa; []; skipn 3 fa ++ firstn 1 fa; skipn 1 fa; []].
+Proof. exact opr_example. Qed.
 
 (* RTU: refuted — one frame per processIncomingPacket call (finding F-C06-rtu-one-frame-per-call) *)
 Theorem C06_rtu_refuted :
